@@ -688,3 +688,14 @@ def run(ctx):
         "documentation promises nothing there and C06's statement is about the batch processor",
         "implementation-level trace validation covers a seeded sample of the recorded scenarios; model drift is evidence only",
     ]
+    # X02: inductive proof (Apalache, symbolic constants) of the parameterised core B this spec generalises -- thorough tier,
+    # evidence only: nothing in here can change the verdict or the exit code of this check (see checks/inductive.py)
+    if thorough:
+        try:
+            import importlib.util as _ilu
+            _s = _ilu.spec_from_file_location("verif_inductive", os.path.join(os.path.dirname(os.path.abspath(__file__)), "inductive.py"))
+            _m = _ilu.module_from_spec(_s)
+            _s.loader.exec_module(_m)
+            ctx.extra["inductive"] = _m.run_inductive(ctx, ["B"], budget_s=600)
+        except Exception as _e:  # never a verdict
+            ctx.extra["inductive"] = {"_error": repr(_e)}
